@@ -14,11 +14,13 @@
        the reduced matrix Mred = U^T Bm, every eigenpair (lam, w) of Mred gives the exact mode c * Bm w (the code's
        c = 1/lam) with (Y X^+) phi = lam phi, and - when U^T U = I - the projected mode U w with
        (U U^T Y X^+)(U w) = lam (U w): the returned modes are the exact resp. projected DMD modes.
+     - C17_nonzero_spectrum_found: conversely every eigenpair of Y X^+ gives one of the reduced matrix (U^T v = 0 only if
+       lam v = 0): the non-zero spectra coincide as sets.
    Outside the proof: eig is an oracle (tape); the ordering (numpy argsort of complex numbers) and "inputs unchanged"
    are decided by correspondence and side check. *)
 From Coq Require Import ZArith List Lia Arith.
 Import ListNotations.
-Require Import Ring Sums Matrix Core Chain Tdmd TdmdProof DmdModes.
+Require Import Ring Sums Matrix Core Chain Tdmd TdmdProof DmdModes TedmdProof.
 Open Scope cr_scope.
 
 Theorem C17_reduced_matrix (R : cring) (xs ys : list (core R)) (xl yl : core R) a a' :
@@ -48,6 +50,15 @@ Theorem C17_standard_mode_eigen (R : cring) (N r : nat) (U Bm : M R) (w : nat ->
   sum N (fun y => PAop N r U Bm x y * sum r (fun c => U y c * w c)) = lam * sum r (fun c => U x c * w c).
 Proof. intros Hw HU. exact (standard_mode_eigen N r U Bm w lam Hw HU x). Qed.
 Print Assumptions C17_standard_mode_eigen.
+
+(* conversely: every eigenpair (lam, v) of the DMD operator Y X^+ = Bm U^T gives the eigenpair (lam, U^T v) of the reduced matrix,
+   and U^T v = 0 forces lam v = 0: no non-zero DMD eigenvalue is missed by the reduced problem *)
+Theorem C17_nonzero_spectrum_found (R : cring) (N r : nat) (U Bm : M R) (v : nat -> R) (lam : R) :
+  (forall x, (x < N)%nat -> sum N (fun y => Aop r U Bm x y * v y) = lam * v x) ->
+  (forall a, sum r (fun b => Mred N U Bm a b * sum N (fun y => U y b * v y)) = lam * sum N (fun y => U y a * v y)) /\
+  ((forall b, (b < r)%nat -> sum N (fun y => U y b * v y) = 0) -> forall x, (x < N)%nat -> lam * v x = 0).
+Proof. exact (eig_back N r Bm (fun a y => U y a) v lam). Qed.
+Print Assumptions C17_nonzero_spectrum_found.
 
 (* non-vacuity: a concrete order-3 instance evaluates both sides *)
 Definition exc (r1 n r2 : nat) (s : Z) : core ZIring :=
